@@ -397,7 +397,7 @@ pub fn case_strategy() -> impl Strategy<Value = RetCase> {
 pub const RULE: &str = "programs = methods whose return type is drawn from the families the macro accepts: borrowed leaves (&u32, &String, &str, &[u8]); Option<&T> / Result<&T,E>; Option / Poll wrappers around those up to depth 3; Vec<&T>, Vec<Option<&T>>; 1-4-tuples mixing owned leaves (u32, String, non-Clone, &'static str), borrowed leaves and shallow containers; all-owned composites of Option/Result/Vec/Poll/tuples up to depth 3; &self and &mut self receivers. For each type a value with generated variants (None/Some, Ok/Err, Ready/Pending, vector lengths 0..4) and pairwise distinct leaf values is configured with returns() through next_call (single use), each_call (3 calls, earlier results read after later calls) and some_call(..).n_times(2). Non-trivial = >= 2 container levels or a tuple mixing owned and borrowed leaves; distinct = distinct (type, value)";
 
 fn spec<'a>() -> Spec<'a, RetCase> {
-    Spec { project: "C17", prelude: PRELUDE, source: &source, judge: &judge, nbins: 16, max_shrink_steps: 30 }
+    Spec { project: "C17", prelude: PRELUDE, source: &source, judge: &judge, nbins: 16, max_shrink_steps: 30, extra_deps: "" }
 }
 
 pub fn run(ctx: &Ctx) -> Verdict {
